@@ -463,7 +463,7 @@ mk_overlap(False)
 
 
 # ------------------------------------------------------------------ XsdWildcard.__copy__: the copy owns its sets (every in-place operation above relies on it)
-t = Target('wildcards.XsdWildcard.__copy__', ['C16', 'C03', 'C14'], F, 'XsdWildcard.__copy__', bounded_only=True,
+t = Target('wildcards.XsdWildcard.__copy__', ['C16', 'C03', 'C14', 'C09'], F, 'XsdWildcard.__copy__', bounded_only=True,
            note='run-time contract on the real method: a copied wildcard has equal but DISTINCT namespace / notNamespace / notQName sets and errors list, the same processContents and the same '
                 'schema objects; union() and intersection() work in place on a copy (attribute groups, extensions), so a shared set would change the wildcard of the referenced group',
            assumes=['the slot loop over _mro_slots() (setattr by computed name) is outside the executor subset: bounded stand-in over element and attribute wildcards of both classes'])
